@@ -32,6 +32,7 @@ def main():
         i += 1
     if not dirs:
         dirs = sorted(glob.glob(os.path.join(VERIF, "seeded", "*")))
+    dirs = [os.path.abspath(d) for d in dirs]
     if sh("git", "-C", REPO, "status", "--porcelain").stdout.strip():
         print("/repo is not clean"); return 2
     props = ["C%02d" % k for k in range(1, 21)]
